@@ -49,6 +49,9 @@ def text_of(kind, obj):
         return 'Size: %d' % len(obj)
     if kind == 'iter':
         return 'Iterator of type: %s' % type(obj)
+    if kind == 'sstr':
+        # text that is not valid UTF-8 is shown escaped (and the limits apply to what is shown)
+        return obj.encode('utf-8', 'backslashreplace').decode('utf-8')
     return str(obj)
 
 
@@ -65,6 +68,9 @@ def build(inst):
         elif k == 'str':
             want = inst['slen'][n - 1]
             b.objs[n] = ''.join(['s%d' % n] + ['x'] * want)[:want] if want > 0 else ''.join([])
+        elif k == 'sstr':
+            want = max(1, inst['slen'][n - 1])
+            b.objs[n] = ''.join((['q%d' % n] + ['\udc80', 'z'] * want)[:want + 1])
         elif k == 'list':
             b.objs[n] = []
         elif k == 'dict':
@@ -147,7 +153,7 @@ class CollectorRun:
             self.hosts[nroots] = R.write_host(self.workdir, frame_source(nroots))
         return self.hosts[nroots]
 
-    def run(self, inst, built, watches=(), extra_conf=None, frame_type='single_frame'):
+    def run(self, inst, built, watches=(), extra_conf=None, frame_type='single_frame', public=False):
         from deep.api.tracepoint.trigger import LocationAction, LineLocation, Trigger, Location
         mod, path, marks = self.host(len(inst['roots']))
         mod.VALS = [built.objs[r] for r in inst['roots']]
@@ -161,9 +167,14 @@ class CollectorRun:
                     'MAX_COLLECTION_SIZE': inst['maxColl'], 'MAX_VAR_DEPTH': inst['maxDepth']}
             if extra_conf:
                 conf.update(extra_conf)
-            act = LocationAction('tp-coll', None, conf, LocationAction.ActionType.Snapshot)
-            trig = Trigger(LineLocation(path.rsplit('/', 1)[-1], marks['frame'], Location.Position.START), [act])
-            rg.install_triggers([trig])
+            if public:
+                # the way the service configures it: default limits, text arguments
+                rg.install([{'id': 'tp-coll', 'path': path.rsplit('/', 1)[-1], 'line': marks['frame'],
+                             'args': {'frame_type': frame_type}, 'watches': list(watches)}])
+            else:
+                act = LocationAction('tp-coll', None, conf, LocationAction.ActionType.Snapshot)
+                trig = Trigger(LineLocation(path.rsplit('/', 1)[-1], marks['frame'], Location.Position.START), [act])
+                rg.install_triggers([trig])
             res = rg.run(mod.frame_fn, only_file=path)
             return res, rg.snapshots(), list(rg.escaped)
         finally:
@@ -209,6 +220,7 @@ def project(snapshot, built):
 
 def instance_header(inst, built):
     h = {k: inst[k] for k in ('kind', 'child', 'roots', 'maxVars', 'maxStr', 'maxColl', 'maxDepth')}
+    h['kind'] = ['str' if k == 'sstr' else k for k in h['kind']]
     h['slen'] = [built.slen[n] for n in range(1, len(inst['kind']) + 1)]
     h['watch'] = list(inst.get('watch', []))
     h['wlim'] = {'maxVars': 1000, 'maxStr': 1024, 'maxColl': 10, 'maxDepth': 5}    # VariableProcessorConfig defaults
@@ -238,18 +250,18 @@ def enumerate_small(n, kinds, max_child, max_roots, vars_set, str_set, coll_set,
                                    'maxVars': mv, 'maxStr': ms, 'maxColl': mc, 'maxDepth': md}
 
 
-def random_instance(rng, max_nodes=12, kinds=('int', 'str', 'list', 'tuple', 'dict', 'obj', 'exc', 'hostile')):
+def random_instance(rng, max_nodes=12, kinds=('int', 'str', 'sstr', 'list', 'tuple', 'dict', 'obj', 'exc', 'hostile')):
     n = rng.randint(1, max_nodes)
     kind, child, slen = [], [], []
     for i in range(1, n + 1):
         k = rng.choice(kinds)
         kind.append(k)
-        if k in ('int', 'str', 'hostile', 'iter'):
+        if k in ('int', 'str', 'sstr', 'hostile', 'iter'):
             child.append([])
         else:
             m = rng.choice([0, 1, 2, 2, 3, 5])
             child.append([rng.randint(1, n) for _ in range(m)])
-        slen.append(rng.choice([0, 1, 3, 8, 30]) if k == 'str' else 1)
+        slen.append(rng.choice([0, 1, 3, 8, 30]) if k in ('str', 'sstr') else 1)
     roots = [rng.randint(1, n) for _ in range(rng.randint(1, 4))]
     return {'kind': kind, 'child': child, 'slen': slen, 'roots': roots,
             'maxVars': rng.choice([0, 1, 2, 3, 5, 8, 1000]), 'maxStr': rng.choice([0, 1, 2, 5, 1024]),
